@@ -6,9 +6,14 @@ from checks import simcommon as sc
 
 MODULE = "Nice.Props.C11"
 THEOREMS = [f"Nice.Props.C11.{t}" for t in (
-    "C11_whitelist_is_documented", "C11_announced_sequence", "C11_announced_is_documented", "signal_state")]
+    "C11_whitelist_is_documented", "C11_announced_sequence", "C11_announced_is_documented", "signal_state")] + [
+    "Nice.Props.C11GatheringDone.C11_completion_needs_no_pending_discovery", "Nice.Props.C11GatheringDone.analysis_ok"]
 TRUSTED = [
     "Lean 4 kernel; axioms propext, Classical.choice, Quot.sound only (audited every run)",
+    "Nice/Gen/GatheringDone.lean: skeleton of agent/agent.c agent_gathering_done REGENERATED from the source on every run "
+    "(tools/extract_flow.py; tracked: agent->discovery_timer_source; marked: agent_signal_gathering_done; assumed: nothing the function "
+    "calls before the announcement creates or destroys the discovery timer): completion is announced only when no discovery item is "
+    "scheduled or in flight, for every execution of the skeleton (Nice/Model/Flow.lean)",
     "the transition whitelist is REGENERATED on every run by compiling the g_assert expression of "
     "agent_signal_component_state_change from the current agent.c and evaluating it on all 36 (old,new) pairs; the documented "
     "edges are re-parsed from docs/reference/libnice/states.gv; the theorem whitelist = documented is re-checked by `decide`",
